@@ -76,6 +76,7 @@ type Downstream struct {
 
 	state           *streamState
 	connStatus      *connStatus
+	connEpoch       uint64 // epoch of connStatus when the stream was bound to wireConn
 	eventDispatcher *eventDispatcher
 }
 
@@ -236,8 +237,12 @@ func (d *Downstream) run() error {
 
 	eg.Go(func() error {
 		verifhook.Point("downstream.watch.start", d.ID.String())
+		d.mu.RLock()
+		epoch := d.connEpoch
+		d.mu.RUnlock()
 		d.connStatus.cond.L.Lock()
-		for !d.connStatus.IsWithoutLock(connStatusReconnecting) {
+		// see Upstream.run: wait for a new reconnect epoch, not for the flag value
+		for d.connStatus.EpochWithoutLock() == epoch {
 			select {
 			case <-ctx.Done():
 				d.connStatus.cond.L.Unlock()
